@@ -254,7 +254,7 @@ static void part_b(report& r)
     L const eps = std::numeric_limits<T>::epsilon();
     for (int kind = 0; kind != 3; ++kind)
     for (sz bins : {sz(1), sz(2), sz(4)})
-    for (int pat = 0; pat != 12; ++pat)
+    for (int pat = 0; pat != 18; ++pat)     // 12..17: a steeply falling spectrum of values that are no dyadic numbers
     {
         std::string const id = tn + " B kind=" + std::to_string(kind) + " bins=" + std::to_string(bins) + " pattern=" + std::to_string(pat);
         if (!r.want(id)) continue;
@@ -272,6 +272,14 @@ static void part_b(report& r)
             s.xs.push_back(T(-2) + T(6) * (T(h % 16) + T(0.3L)) / T(16));
             s.ys.push_back(T(0.25) + T(0.5) * T((h >> 8) & 1));
             s.vals.push_back(T(int((h >> 16) % 7) - 3) * T(0.5));
+            if (pat >= 12)
+            {
+                // bins hold values of very different magnitude (1, 2^-30, 2^-60, 2^-90 from left to right) whose sums
+                // round: a bin must not receive anything from the sums of its neighbours or of the integral
+                T const x = s.xs.back();
+                int const cell = x < lo ? 0 : x >= hi ? 3 : int((x - lo) / ((hi - lo) / T(4)));
+                s.vals.back() = std::ldexp((s.vals.back() == T() ? T(1) : s.vals.back()) / T(3), -30 * cell);
+            }
         }
         vf::script_engine::table().clear();
         vf::script_engine::salt() = 1100 + pat;
@@ -285,8 +293,8 @@ static void part_b(report& r)
             s.lo = lo + T(b) * d0.bin_size_x(); s.hi = lo + T(b + 1) * d0.bin_size_x(); s.area = d0.bin_size_x();
             auto const sep = iterate<T>(kind, n, nullptr, nullptr);
             auto const& br = res.distributions()[0].results()[b];
-            L mag = 0;
-            for (sz k = 0; k != n; ++k) mag += std::fabs(L(s.vals[k]));
+            L mag = 0;      // of the values projected into this bin
+            for (sz k = 0; k != n; ++k) if (s.xs[k] >= s.lo && s.xs[k] < s.hi) mag += std::fabs(L(s.vals[k]));
             L const scale = 8 * mag / L(s.area) / n;    // generous: weights are O(1)
             if (br.calls() != n) { r.violate("bin-calls", id, id + ": bin reports calls " + std::to_string(br.calls())); ok = false; }
             else if (!(std::fabs(L(br.value()) - L(sep.value())) <= 8 * eps * scale))
